@@ -3,6 +3,8 @@
     Inv_*.v files where they are proved).  See DESIGN.md section 5 for how each renders the property. *)
 From CB Require Import ProofLib Spec MonitorSound Results.
 From CB Require Import Inv_concat.
+From CB Require Import Chain Programs Tree TreePrograms TreeFunctional Order_nary Inv_for_each.
+
 
 Theorem C09_concat_order n p :
   nsinks p = 1 -> resub p = false -> no_nest p = false -> c14 p = false -> late_ok p = false ->
@@ -49,3 +51,27 @@ Theorem C09_concat_safe n p :
   forall c : cfg (concat_op n), reach p g_std c -> viols (ms c) = [] /\ dead c = false.
 Proof. exact (@concat_safe n p). Qed.
 Print Assumptions C09_concat_safe.
+
+(** ** the list function of concat!: member order *)
+
+Theorem C09_concat_list_function n p :
+  nsinks p = 1 -> resub p = false -> no_nest p = false -> c14 p = false -> late_ok p = false ->
+  forall c : cfg (concat_op n), reach p g_std c ->
+    data_out 0 (trace c) = flat_map (fun k => data_in k (trace c)) (seq 0 n).
+Proof. exact (@concat_list_function n p). Qed.
+Print Assumptions C09_concat_list_function.
+
+(** inside a program: the outputs of the wired members, one after the other *)
+Theorem C09_prog_concat (ts : list tnode) (es : list edge) (N : tnet)
+  (Hok : Forall tnode_ok ts) (Hes : edges_okb es (length ts) = true)
+  (Hsink : forall e, In e es -> nth_error ts (e_child e) <> Some TSink)
+  (Hr : tnet_reach (wiring_of es) (prog_net ts) N) (Hidle : tpend N = PIdle)
+  i n k (kids : list nat) (Us : list node) :
+    nth_error (tnodes N) i = Some n -> nth_error ts i = Some (TConcat k) ->
+    length kids = k -> length Us = k ->
+    (forall j c U, nth_error kids j = Some c -> nth_error Us j = Some U ->
+       In (c, i, j) es /\ nth_error (tnodes N) c = Some U) ->
+    data_out 0 (ntrace n) = flat_map (fun U => data_out 0 (ntrace U)) Us.
+Proof. exact (@prog_concat ts es N Hok Hes Hsink Hr Hidle i n k kids Us). Qed.
+Print Assumptions C09_prog_concat.
+
